@@ -226,6 +226,16 @@ def scenarios():
     out['child-stays'] = dict(mempool0=('t1',), script=lambda: [
         ev_state('mempool+t2', names=('t1', 't2')), T, T,
         ev_state('block(t1)', blocks=extended([('t1',)]), names=('t2',)), T, T, T, T])
+    # one client, two scripts touched by the same block, then a mempool tx touching one of them
+    # (two notification passes can overlap: one from the block processor, one from the mempool)
+    out['overlapping-passes-a'] = dict(subs={'c1': ('A', 'D'), 'c2': ()}, mempool0=('t1', 't2', 't7'),
+                                       script=lambda: [
+        ev_state('block(t1,t2,t7)', blocks=extended([('t1', 't2', 't7')]), names=()), T, T,
+        ev_state('mempool+t6', names=('t6',)), T, T, T])
+    out['overlapping-passes-d'] = dict(subs={'c1': ('A', 'D'), 'c2': ()}, mempool0=('t1', 't2', 't7'),
+                                       script=lambda: [
+        ev_state('block(t1,t2,t7)', blocks=extended([('t1', 't2', 't7')]), names=()), T, T,
+        ev_state('mempool+t3', names=('t3',)), T, T, T])
     # a NEW client connects and subscribes around the block that changes the script
     out['late-connect'] = dict(subs={'c1': ('A',), 'c2': ()}, mempool0=('t1',), script=lambda: [
         ev_state('block(t1)', blocks=extended([('t1',)]), names=()), T, T, T, T,
